@@ -1,7 +1,6 @@
 package stdlib
 
 import (
-	"math"
 	"strconv"
 
 	. "rare/pkg/expressions" //lint:ignore ST1001 Legacy
@@ -122,8 +121,14 @@ func kfExpBucket(args []KeyBuilderStage) (KeyBuilderStage, error) {
 		if err != nil {
 			return ErrorNum
 		}
-		logVal := int(math.Log10(float64(val)))
+		bucket := 0
+		if val > 0 { // largest power of 10 that is <= val, in integers (float log10 is inexact)
+			bucket = 1
+			for val/10 >= bucket {
+				bucket *= 10
+			}
+		}
 
-		return strconv.Itoa(int(math.Pow10(logVal)))
+		return strconv.Itoa(bucket)
 	}), nil
 }
